@@ -96,6 +96,28 @@ chk("C19","enum",
  "About 200 k cases: every single-field and (every 5th / all) two-field deviation of the ~60 settings is written by the real builder, checked against an independent line grammar and read back; every single-field template is served through the real HandleDownload and must keep non-default template settings except the gateway-controlled ones; the real parser must agree with a reference parser on every short string; parse(marshal(m)) == m for maps of 1-3 settings.",
  "String values without CR/LF and without leading/trailing blanks; lines up to 16 KiB; temporary files in the build directory.")
 
+# what the seed rounds added to each check (DESIGN.md section 13); appended to the level text
+EXTRA = {
+ "C01": " Also from non-initial gateway states: after an earlier legacy tunnel (same or another connection id; left open, closed, dropped) every history up to depth 2/3 on a websocket and a legacy connection, judged by a fresh monitor; a second RDG_IN_DATA with the same id at three points; and the sequence / cookie / capability wiring on the real rdpgw binary.",
+ "C02": " Minted lifetime for identities with every expiry; on the real binary the minted token must verify under the configured signing key, claims re-signed under that key are accepted and under the other configured secret refused.",
+ "C03": " Plus two-user histories on one gateway process, every schedule (deviation bound 2/3) of two tunnels whose real tokens are verified by the real CheckPAACookie at the same time (identity-provider round trip = scheduling point), and the host policy on the real binary per authentication scheme.",
+ "C05": " Two Basic requests in flight at once on the real binary: the authentication backend is gated by the harness, all six orders of {request i reaches the backend, backend answers i} for three pairs of principals; Kerberos positive and negative cases with tickets forged under the gateway's keytab.",
+ "C06": " Also: the client closing the channel while the host streams, and two tunnels whose hosts stream at once (two goroutines building packets).",
+ "C07": " Also with real tokens and the real security callbacks, with connections that deliver one write per read, and with a scheduling point between a read's return and the reader's next step (5 kB packets read straight into the reader's buffer).",
+ "C09": " Further drivers: connection-file download concurrent with channel creation (D7), two legacy tunnels back to back (D8), two tunnels with real tokens (D9), two browsers downloading from a gateway with an .rdp template (D10); sync.Pool is modelled.",
+ "C10": " (g) a tour of the real binary under six authentication configurations: login, download, token introspection, every registered route, and a complete session over websocket and over the legacy transport with the callbacks as main() wires them; (e) every sequence of up to 3 requests x connection ids.",
+ "C11": " Also compound endings (outbound connection lost while the host keeps writing, then each ordinary ending on the inbound one), the client going away in the middle of a packet at 6 offsets, descriptor count of the real process around nine tunnels, and a watchdog that reports a goroutine spinning without reaching a scheduling point.",
+ "C13": " The same callbacks against the real binary (main()'s provider, verifier and oauth2 wiring) with a loopback IdP: state issued to this / another browser / never x the 11 code behaviours x both session stores.",
+ "C14": " Challenges include a zero-length one (what is left of a cleared challenge).",
+ "C16": " Also 38 client capability words in TUNNEL_CREATE, every schedule of a host that talks at once and of a client that closes while the host streams, and the configuration -> wire mapping on the real binary.",
+ "C17": " After a mismatch every connection of the tunnel must be closed by the gateway; capability settings on the real binary.",
+ "C18": " Includes Server.Authentication not configured at all (documented default).",
+ "C19": " The output of the previous marshal call must be unchanged after the next one (aliasing).",
+ "C20": " Binding: the real binary with a kerberos configuration and scripted KDCs on loopback TCP/UDP sockets (reply over TCP / UDP, silent, refusing, truncating; unknown realm; other methods; malformed bodies).",
+}
+for k, v in EXTRA.items():
+    P[k]["text"] += v
+
 def build():
     checks=[]
     for pid in sorted(P):
